@@ -405,7 +405,11 @@ fn gen_request(rng: &mut Prng, id: u64, p_h2_client: bool, h2_backend: bool, o: 
             if !trailers.iter().any(|(n, _)| *n == t.0) { trailers.push(if h1 { (name_variant(rng, &t.0, true), t.1) } else { t }); }
         }
     }
-    let chunks = if chunked { Some(if h1 { random_chunks(rng, body) } else { vec![body] }) } else { None };
+    // an HTTP/2 request may declare its content-length and still end with a trailer section: half of the HTTP/2 requests with
+    // trailers do (`chunks: None` = content-length present, see `build`)
+    // (toward an h2c backend only: content-length + trailers toward an HTTP/1.1 backend is the recorded H2F-1 family)
+    let cl_with_trailers = want_trailers && !h1 && h2_backend && rng.below(2) == 0;
+    let chunks = if chunked && !cl_with_trailers { Some(if h1 { random_chunks(rng, body) } else { vec![body] }) } else { None };
     if h1 {
         let framing: Hdr = if chunked { ("Transfer-Encoding".into(), "chunked".into(), 0) } else { ("Content-Length".into(), body.to_string(), 0) };
         // a body-less GET may go without framing fields (RFC 9112 6.3)
